@@ -58,7 +58,7 @@ func (a ConstInt) ConvertConstScalar(t ScalarType) ConstScalar {
   case ConstIntType:
     return a
   default:
-    return NewConstScalar(t, a.GetFloat64())
+    return convertConstScalar(a, t)
   }
 }
 /* stringer
